@@ -52,6 +52,7 @@ type c07State struct {
 	rejected  int
 	goodAfter int
 	steps     int
+	rec       *vh.Recorder
 }
 
 func c07GetAddrs(c chunks.Chunk) chunks.InsertAddrsCb {
@@ -347,6 +348,19 @@ func (s *c07State) addFile() {
 	mem := s.mem()
 	var missing []hash.Hash
 	unsure := false
+	if vh.OpenFinding("C07", c07MemOnlyID) {
+		// known finding: a reference of the file that only a pending memtable chunk satisfies is
+		// accepted, and the memtable may be discarded afterwards. Exclude exactly that shape.
+		for _, c := range cs {
+			for _, r := range c.Refs {
+				if !in[r] && !s.T[r] && mem[r] {
+					s.rec.Excluded(1)
+					s.op("addFile(skipped: known finding shape)")
+					return
+				}
+			}
+		}
+	}
 	for _, c := range cs {
 		for _, r := range c.Refs {
 			if !in[r] && !s.T[r] && !mem[r] {
@@ -527,7 +541,7 @@ func (s *c07State) checkLive() {
 }
 
 func c07Case(rt *rapid.T, rec *vh.Recorder) {
-	s := &c07State{rt: rt, ctx: context.Background(), T: map[hash.Hash]bool{}, persisted: map[hash.Hash]bool{}, maybe: map[hash.Hash]bool{}, classes: map[string]bool{}}
+	s := &c07State{rt: rt, ctx: context.Background(), T: map[hash.Hash]bool{}, persisted: map[hash.Hash]bool{}, maybe: map[hash.Hash]bool{}, classes: map[string]bool{}, rec: rec}
 	s.backend = []string{"local", "local", "journal"}[rapid.IntRange(0, 2).Draw(rt, "backend")]
 	s.memSz = []uint64{8 << 10, 16 << 10, 64 << 10}[rapid.IntRange(0, 2).Draw(rt, "memtableSize")]
 	s.set = vc.Gen(rt, "dag", vc.Opts{Min: 4, Max: 40, MaxNear64k: -1, WithRefs: true})
@@ -605,4 +619,86 @@ func TestVerif_C07(t *testing.T) {
 		"chunks flushed but not committed may or may not survive close+reopen, and may become visible again later (a journal keeps un-rooted chunk records and attaches them with the next commit): while such a chunk is invisible, predictions that depend on it are suspended in both directions; committed chunks must survive")
 	defer rec.Write(t)
 	vh.Check(t, "closure", 500, 1500, func(rt *rapid.T) { c07Case(rt, rec) })
+	t.Run("pinned_table_file_ref_only_in_memtable", c07PinnedMemOnly)
+}
+
+const c07MemOnlyID = "C07-addtablefiles-ref-only-in-memtable"
+
+// c07PinnedMemOnly is the minimal history of finding C07-addtablefiles-ref-only-in-memtable (found
+// by the generated histories in the thorough tier): a table file whose chunk references a chunk
+// that exists only in the un-flushed memtable is accepted into the manifest; the memtable is then
+// lost (close, or a dangling-reference rejection); committing the file's chunk as root succeeds
+// because only the root's own presence is checked.
+func c07PinnedMemOnly(t *testing.T) {
+	ctx := context.Background()
+	dir, rm := vh.ScratchDir(t, "c07-pin-")
+	defer rm()
+	open := func() *NomsBlockStore {
+		st, err := newLocalStore(ctx, constants.FormatDoltString, dir, 1<<20, 1<<20, NewUnlimitedMemQuotaProvider(), false)
+		if err != nil {
+			vh.Inconclusive(t, "open: %v", err)
+		}
+		return st
+	}
+	st := open()
+	base := chunks.NewChunk(vc.EncodeRefs(nil, []byte("base")))
+	child := chunks.NewChunk(vc.EncodeRefs(nil, []byte("child, only ever in the memtable")))
+	parent := chunks.NewChunk(vc.EncodeRefs([]hash.Hash{child.Hash()}, []byte("parent, arrives in a table file")))
+	if err := st.Put(ctx, base, c07GetAddrs); err != nil {
+		t.Fatalf("Put: %v", err)
+	}
+	if ok, err := st.Commit(ctx, base.Hash(), hash.Hash{}); err != nil || !ok {
+		t.Fatalf("Commit(base): %v %v", ok, err)
+	}
+	if err := st.Put(ctx, child, c07GetAddrs); err != nil { // pending, not flushed
+		t.Fatalf("Put(child): %v", err)
+	}
+	tmp := filepath.Join(dir, "verif-tmp")
+	_ = os.MkdirAll(tmp, 0o755)
+	w, err := NewCmpChunkTableWriter(tmp)
+	if err != nil {
+		vh.Inconclusive(t, "writer: %v", err)
+	}
+	defer w.Cancel()
+	if _, err := w.AddChunk(ChunkToCompressedChunk(parent)); err != nil {
+		t.Fatalf("AddChunk: %v", err)
+	}
+	_, name, err := w.Finish()
+	if err != nil {
+		t.Fatalf("Finish: %v", err)
+	}
+	ph, err := st.WriteTableFile(ctx, name, 0, 1, nil, func() (io.ReadCloser, uint64, error) {
+		r, err := w.Reader()
+		return r, w.FullLength(), err
+	})
+	if err != nil {
+		t.Fatalf("WriteTableFile: %v", err)
+	}
+	err = st.AddTableFilesToManifest(ctx, map[string]int{name: 1}, c07GetAddrs)
+	_ = ph.Close()
+	if err != nil {
+		_ = st.Close()
+		return // rejected: the defect is gone
+	}
+	_ = st.Close() // the pending child is lost with the memtable
+	st = open()
+	defer st.Close()
+	ok, err := st.Commit(ctx, parent.Hash(), base.Hash())
+	if err != nil || !ok {
+		return // the dangling root was refused
+	}
+	fr := open()
+	defer fr.Close()
+	root, _ := fr.Root(ctx)
+	c, _ := fr.Get(ctx, child.Hash())
+	if root != parent.Hash() || !c.IsEmpty() {
+		return
+	}
+	what := "AddTableFilesToManifest accepted a table file whose chunk references a chunk held only by the un-flushed memtable (refCheck counts pending memtable chunks as present); after close+reopen the child is gone, Commit(parent) succeeds because only the root's own presence is checked (errorIfDangling), and a fresh open has Root() = parent with the child missing"
+	if vh.OpenFinding("C07", c07MemOnlyID) {
+		vh.ReportKnown("C07", c07MemOnlyID, what)
+		return
+	}
+	vh.NoteViolation(t.Name(), "", fmt.Sprintf(`{"finding_id":%q,"what":%q}`, c07MemOnlyID, what))
+	t.Errorf("finding-id=%s: %s", c07MemOnlyID, what)
 }
